@@ -10,7 +10,8 @@ d = f"/verif/seeded/{sid}"; os.makedirs(d, exist_ok=True)
 for f in ("patch.diff", "demo.py", "notes.md"):
     shutil.copy(os.path.join(wt, mut, f), os.path.join(d, f))
 conf = ""
-for log in ("/tmp/wt/confirm1.log", "/tmp/wt/confirm2.log", "/tmp/wt/confirm3.log", "/tmp/wt/confirm4.log", "/tmp/wt/confirm5.log"):
+import glob
+for log in sorted(glob.glob("/tmp/wt/confirm*.log")):
     if os.path.exists(log):
         for l in open(log):
             if f"{wt} {mut}:" in l: conf = l.strip()
